@@ -5,6 +5,7 @@ import time
 
 import fam_blocking
 import fam_broker
+import fam_codec
 import vlib
 
 
@@ -126,3 +127,50 @@ def _blocking_replay(prop, path):
 
 
 CHECKS["C11"] = {"run": _blocking_run, "replay": _blocking_replay}
+
+
+def _codec_finish(prop, tier, fam, t0, rule, assumptions, exhaustive_note):
+    mine = [dict(v, key="%s:%s" % (v["mon"], v["cls"]),
+                 detail="%s on %s input %s -> impl %s" % (v["mon"], v["case"].get("kind"), json.dumps(v["case"].get("in", v["case"].get("input")))[:160],
+                                                          json.dumps({k: v["case"].get(k) for k in ("pkts", "end", "rest", "out") if k in v["case"]})[:200]))
+            for v in fam["violations"] if v["mon"].startswith(prop + ".")]
+    unknown, hits = vlib.split_known(prop, mine)
+    mc = fam.get("mc") or {}
+    coverage = {
+        "states": mc.get("states", 0), "transitions": mc.get("transitions", 0),
+        "traces_validated_against_impl": fam["cases"] - len({json.dumps(v["case"], sort_keys=True) for v in mine}),
+        "evaluations": fam["cases"], "distinct_nontrivial": fam["nontrivial"], "rule": rule,
+        "samples": fam["samples"], "kinds": fam.get("kinds"), "exhaustive": False, "exhaustive_note": exhaustive_note,
+        "spec_level": {k: mc.get(k) for k in ("name", "ok", "wall_s", "violated")},
+    }
+    vlib.write_evidence(prop, tier, "model_checking", coverage, time.time() - t0, len(unknown), assumptions)
+    if mc and not mc.get("ok", True):
+        raise vlib.ToolError("spec-level TLC run failed: %s" % mc.get("out_tail", "")[-1500:])
+
+    def replay_of(v):
+        return vlib.write_replay(prop, v["key"].replace(":", "_").replace(".", "_"), {
+            "property": prop, "monitor": v["mon"], "class": v["cls"], "case": v["case"], "detail": v["detail"],
+            "how": "./check %s --replay <this file>" % prop})
+    return vlib.finish(prop, unknown, hits, replay_of)
+
+
+def _c15_run(prop, tier):
+    t0 = time.time()
+    fam = fam_codec.resp_family(tier)
+    return _codec_finish(prop, tier, fam, t0,
+        "case = one byte stream fed to the real RespCodec whole and in every split (all 2^(n-1) splits up to 10 bytes, sampled beyond); "
+        "all byte strings up to length %d over the alphabet {* $ + : - 1 2 CR LF a} are enumerated completely, plus generated values, pipelines, "
+        "corrupted encodings and optional-multi groupings; non-trivial iff at least one packet was decoded" % fam["maxlen"],
+        ["TLC evaluates the strict grammar oracle spec/Resp.tla; the oracle's own round-trip/prefix properties are model-checked (Resp_MC)",
+         "integer payloads are treated as opaque lines (the proxy forwards them unparsed)"],
+        "all byte strings of length <= %d over a 10-symbol hostile alphabet were enumerated; longer inputs are sampled" % fam["maxlen"])
+
+
+def _case_replay(prop, path):
+    rp = json.load(open(path))
+    print("replay: case %s" % json.dumps(rp.get("case"))[:300])
+    # re-run the family quick tier restricted by cache: simply re-run the check
+    return CHECKS[prop]["run"](prop, "quick")
+
+
+CHECKS["C15"] = {"run": _c15_run, "replay": _case_replay}
